@@ -1201,6 +1201,21 @@ def witnesses(ctx):
         ctx.count("witness")
         ctx.case({"witness": w}, nontrivial=True)
         run_case(ctx, m, w["marked"], {"kind": "witness", "gen": "witness"})
+    # needles: a well shaped tetrahedron glued to one of height L; marking the first makes the conforming closure
+    # cut the needle many times (one call multiplies the number of vertices by more than 8: the work arrays
+    # of the tetrahedral bisection are re-allocated on the way)
+    for L in ([128., 1024.] if ctx.tier == "quick" else [16., 128., 512., 1024., 4096.]):
+        for apex in ([0.3125, 0.375], [0.5, 0.125]):
+            pn = np.array([[0., 0., 0.], [1., 0., 0.], [0., 1., 0.], [.25, .25, -.75], [apex[0], apex[1], L]]).T
+            tn = np.array([[0, 1, 2, 3], [0, 1, 2, 4]], dtype=np.int32).T
+            import skfem
+            mn = skfem.MeshTet1(pn, tn)
+            if not input_ok(mn):
+                continue
+            for marked in ([0], [0, 1]):
+                ctx.count("witness:needle")
+                ctx.case({"witness": "needle", "L": L, "apex": apex, "marked": marked}, nontrivial=True)
+                run_case(ctx, mn, marked, {"kind": "tet", "gen": "needle"}, check_tags=False)
     # the capacity witness: every single cell and the full set
     m = witness_mesh(WITNESSES[-1])
     for marked in [[k] for k in range(m.t.shape[1])] + [list(range(m.t.shape[1]))]:
